@@ -21,7 +21,7 @@ func init() {
 			{Pkg: "bkl", Func: "HarnessC01_kinds", Tiers: "qt", Covers: []string{"merge.accepted", "merge.rejected"},
 				Bound: "merge+validate vs specMerge on the kind matrix {nil,scalar,{},{a:s},[],[s]}^2"},
 			{Pkg: "bkl", Func: "HarnessC01_mapmap", Tiers: "qt", Covers: []string{"merge.accepted", "merge.rejected"},
-				Bound: "map over map, keys {a,b}; quick: parent scalar values (incl. nil, $required), child values scalar/$delete + $replace:true/false and misplaced $match key; thorough: both sides depth<=2 with lists<=1 and every list directive entry form"},
+				Bound: "map over map, keys {a,b}; quick: parent scalar values (incl. nil, $required), child values scalar/$delete + $replace:true/false and misplaced $match key; thorough: parent of depth<=2 (maps in maps) under the same child family"},
 			{Pkg: "bkl", Func: "HarnessC01_spine", Tiers: "t", Covers: []string{"merge.accepted", "merge.rejected"},
 				Bound: "3-level spine a.b.{a,b} with the depth-1 map family at the bottom"},
 			{Pkg: "bkl", Func: "HarnessC01_listlist", Tiers: "qt", Covers: []string{"merge.accepted", "merge.rejected"},
